@@ -524,9 +524,20 @@ def fresh(name):
     return d
 
 
+_CLEAN = {}
+
+
+class _Ref:
+    pass
+
+
 def clean_build(st, release, src=None):
     """from-scratch build of the project state; src = content of the user's file in the lib sources (sources are part of the
-    project state, but not of the recipes)"""
+    project state, but not of the recipes).  The result is a function of its arguments: computed once per process."""
+    key = (tuple(sorted((k, v) for k, v in st.items() if k != 'archive')), bool(release), src)
+    if key in _CLEAN:
+        clean_build.last = _CLEAN[key]
+        return _CLEAN[key].outs
     w = World(fresh('clean'))
     if src is not None:
         o = invoke(w, st, release, ['-B'])
@@ -538,7 +549,10 @@ def clean_build(st, release, src=None):
     o, outs, res = invoke(w, st, release)
     if o != 'ok':
         raise V.HarnessGap('clean build failed: ' + o)
-    clean_build.last = w
+    r = _Ref()
+    r.outs, r.by_vid = outs, dict(w.by_vid)
+    _CLEAN[key] = r
+    clean_build.last = r
     return outs
 
 
